@@ -38,6 +38,8 @@ pub struct Profile {
     pub random_teardown_pct: u32,
     pub drop_state_pct: u32,
     pub big_pct: u32,
+    /// percent of plans that contain the bind disconnect / reconnect skeleton
+    pub skeleton_pct: u32,
 }
 
 impl Profile {
@@ -72,6 +74,7 @@ impl Profile {
             random_teardown_pct: 30,
             drop_state_pct: 0,
             big_pct: 0,
+            skeleton_pct: 15,
         }
     }
 }
@@ -133,7 +136,7 @@ impl<'a> G<'a> {
         let n = 1 + self.r.below(2);
         (0..n)
             .map(|_| {
-                let eff = match self.r.weighted(&[8, 4, 3, 3, 1, 1, 1, 1, 1]) {
+                let eff = match self.r.weighted(&[8, 4, 3, 3, 1, 1, 1, 1, 1, 1]) {
                     0 => Effect::Write { var: self.idx(), op: self.write_op() },
                     1 => Effect::WriteArg { var: self.idx(), f: self.f1() },
                     2 => Effect::GetVar { var: self.idx() },
@@ -142,6 +145,7 @@ impl<'a> G<'a> {
                     5 => Effect::DropObs { obs: self.idx(), clone: self.idx() },
                     6 => Effect::Disallow { obs: self.idx() },
                     7 => Effect::DropVar { var: self.idx() },
+                    8 => Effect::WriteThenDropVar { var: self.idx(), op: self.write_op() },
                     _ => Effect::IsStable,
                 };
                 EffectSpec { on: self.on(), eff }
@@ -181,7 +185,8 @@ impl<'a> G<'a> {
     fn body_expr(&mut self, depth: u32, bind_depth: u32) -> BodyExpr {
         let leaf = depth >= 3;
         let w_memo = if self.nmemo > 0 { 2 } else { 0 };
-        let k = if leaf { self.r.weighted(&[5, 2, 0, 0, 1, 0, 0, w_memo]) } else { self.r.weighted(&[4, 2, 5, 2, 1, 1, if bind_depth < 2 { 2 } else { 0 }, w_memo]) };
+        let w_local = if self.p.w_memo > 0 { 2 } else { 0 };
+        let k = if leaf { self.r.weighted(&[5, 2, 0, 0, 1, 0, 0, w_memo, w_local]) } else { self.r.weighted(&[4, 2, 5, 2, 1, 1, if bind_depth < 2 { 2 } else { 0 }, w_memo, w_local]) };
         match k {
             0 => BodyExpr::Outer(self.r.below(4)),
             1 => BodyExpr::Const(self.val()),
@@ -193,7 +198,8 @@ impl<'a> G<'a> {
                 BodyExpr::Fold((0..n).map(|_| self.body_expr(depth + 1, bind_depth)).collect(), self.f2())
             }
             6 => BodyExpr::Bind(Box::new(self.body_expr(depth + 1, bind_depth)), Box::new(self.body(bind_depth + 1))),
-            _ => BodyExpr::Memo { m: self.r.below(4), k: self.val() },
+            7 => BodyExpr::Memo { m: self.r.below(4), k: self.val() },
+            _ => BodyExpr::LocalMemo { k: self.val() },
         }
     }
     fn body(&mut self, bind_depth: u32) -> BodySpec {
@@ -365,6 +371,70 @@ impl<'a> G<'a> {
     }
 }
 
+/// A bind whose closure hands out a node; the node is observed on its own, the bind is
+/// disconnected (its own observer dropped), things change, and the bind is reconnected.
+fn skeleton_reconnect(g: &mut G, actions: &mut Vec<Action>) {
+    const LAST: usize = usize::MAX;
+    const LAST_BIND: usize = usize::MAX - 1;
+    const LAST_EXPORTED: usize = usize::MAX - 2;
+    let lhs = if g.r.chance(1, 2) {
+        // an input that can grow taller by one level while keeping its value
+        let body = BodySpec {
+            alts: vec![BodyExpr::Outer(0), BodyExpr::Map(Box::new(BodyExpr::Outer(0)), F2::Snd)],
+            outers: vec![OuterSel::Any(g.idx())],
+            export: false,
+            temp: false,
+            side: None,
+            fx: vec![],
+        };
+        actions.push(Action::NewBind { lhs: g.idx(), body });
+        actions.push(Action::Observe { node: LAST_BIND, pool: Pool::I });
+        g.ni += 1;
+        g.nobs += 1;
+        LAST
+    } else {
+        g.idx()
+    };
+    let inner = match g.r.below(3) {
+        0 => BodyExpr::Map(Box::new(BodyExpr::Outer(0)), g.f2()),
+        1 => BodyExpr::Map(Box::new(BodyExpr::Map(Box::new(BodyExpr::Outer(0)), g.f2())), g.f2()),
+        _ => BodyExpr::Map(Box::new(BodyExpr::NewVar { v: g.val(), top: false }), g.f2()),
+    };
+    let body = BodySpec {
+        alts: if g.r.chance(1, 2) { vec![inner.clone()] } else { vec![inner.clone(), BodyExpr::Map(Box::new(inner), g.f2())] },
+        outers: vec![if g.r.chance(1, 2) { OuterSel::Any(g.idx()) } else { OuterSel::Sibling(g.idx()) }],
+        export: true,
+        temp: g.r.chance(1, 3),
+        side: None,
+        fx: vec![],
+    };
+    actions.push(Action::NewBind { lhs, body });
+    actions.push(Action::Observe { node: LAST_BIND, pool: Pool::I });
+    actions.push(Action::Stabilise);
+    actions.push(Action::Observe { node: LAST_EXPORTED, pool: Pool::I });
+    g.ni += 2;
+    g.nobs += 2;
+    if g.r.chance(1, 2) {
+        actions.push(Action::Subscribe { obs: LAST, h: HandlerSpec::default() });
+        g.nsubs += 1;
+    }
+    actions.push(Action::Stabilise);
+    actions.push(Action::DropObs { obs: LAST_BIND, clone: 0 });
+    actions.push(Action::Stabilise);
+    for _ in 0..1 + g.r.below(3) {
+        actions.push(Action::Write { var: g.idx(), op: g.write_op() });
+    }
+    if g.r.chance(1, 2) {
+        actions.push(Action::Stabilise);
+    }
+    actions.push(Action::Observe { node: LAST_BIND, pool: Pool::I });
+    g.nobs += 1;
+    for _ in 0..g.r.below(3) {
+        actions.push(Action::Write { var: g.idx(), op: g.write_op() });
+    }
+    actions.push(Action::Stabilise);
+}
+
 pub fn gen_plan(seed: u64, p: &Profile) -> Plan {
     let mut plan_rng = Rng::stream(seed, 1);
     let mut sched = Rng::stream(seed, 3);
@@ -398,7 +468,16 @@ pub fn gen_plan(seed: u64, p: &Profile) -> Plan {
         let a = g.build();
         actions.push(a);
     }
+    let skeleton_at = if !fault_free && g.r.chance(p.skeleton_pct, 100) { Some(actions.len() + g.r.below(n_actions.max(actions.len() + 1) - actions.len())) } else { None };
+    let mut skeleton_done = false;
     while actions.len() < n_actions {
+        if let Some(at) = skeleton_at {
+            if !skeleton_done && actions.len() >= at {
+                skeleton_done = true;
+                skeleton_reconnect(&mut g, &mut actions);
+                continue;
+            }
+        }
         let can_build = g.ni + g.np + g.nq < max_nodes;
         let w = [
             if can_build { p.w_build } else { 0 },
